@@ -3,7 +3,7 @@ C28 — model loading errors point at the offending text.
 
 Path-exhaustive (level P) exploration with symx selectors: error kind (syntax
 error, unknown object, non-unique name, unresolvable postponed reference) x
-location (string model, main model file, imported model file) x reference form
+location (string model, main model file with and without imports, imported model file loaded last / not last) x reference form
 (single reference, 1st / 2nd / 3rd element of a reference list) x layout of
 the whitespace in front of the offending token (spaces, tabs, newlines).  Every
 combination is one real load; the raised error must name the file that contains
@@ -30,7 +30,7 @@ Obj: 'obj' name=ID;
 User: 'user' name=ID ('ref' r=[Obj] | 'many' rs+=[Obj][',']) ';';
 """
 KINDS = ['syntax', 'unknown', 'notunique', 'unresolvable']
-WHERE = ['string', 'main', 'imported']
+WHERE = ['string', 'main', 'imported', 'main-with-import', 'imported-first-of-two']
 FORMS = ['single', 'list1', 'list2', 'list3']
 GAPS = [' ', '\n', '\n\n  ', '\t ', ' \n\t']
 MARK = '@@'
@@ -57,6 +57,16 @@ def build(kind, where, form, gap):
     if where == 'imported':
         files['lib.m'] = body(kind, form, gap, kind == 'notunique')
         files['main'] = 'import "lib.m"\nobj c\nuser m ref c ;'
+        off = 'lib.m'
+    elif where == 'main-with-import':
+        # the offending file is not the last one loaded
+        files['main'] = 'import "lib.m"\n' + body(kind, form, gap, kind == 'notunique')
+        files['lib.m'] = 'obj c\nuser m ref c ;'
+        off = 'main'
+    elif where == 'imported-first-of-two':
+        files['lib.m'] = body(kind, form, gap, kind == 'notunique')
+        files['lib2.m'] = 'obj d\nuser n ref d ;'
+        files['main'] = 'import "lib.m"\nimport "lib2.m"\nobj c\nuser m ref c ;'
         off = 'lib.m'
     else:
         files['main'] = body(kind, form, gap, kind == 'notunique')
